@@ -52,9 +52,11 @@ func runC03(c *Config, r *Report) {
 	c03R3(ic, r)
 	c03R4(ic, r)
 	c03R8(ic, r)
+	c03R8width(ic, r)
 	c03R9(ic, r)
 	c03R10(ic, r)
 	c03R11(ic, r)
+	c03R14(ic, r)
 	c03R5(ic, r)
 	c03R6(ic, r)
 	c03R7(ic, r)
